@@ -533,7 +533,7 @@ func (o *operatorActor) loop() {
 		case 3:
 			pattern = map[string]string{"host": "worker0", "rack": "r2"}
 		}
-		kind := t.Weighted([]int{3, 1, 3, 3, 2, 2, 2, 2, 2, 1, 1, 1})
+		kind := t.Weighted([]int{3, 1, 3, 3, 2, 2, 2, 2, 2, 1, 1, 1, 2})
 		if w.faultFree && (kind < 2 || kind == 4) && w.prop == "C04" {
 			// No kills or terminations in the policy check; drains stay
 			// (a drained worker must get nothing, an undrained one must be
@@ -617,6 +617,15 @@ func (o *operatorActor) loop() {
 		case 10:
 			desc = "ListDrains"
 			_, err = w.bq.ListDrains(o.ctx, &buildqueuestate.ListDrainsRequest{SizeClassQueueName: qn})
+		case 12:
+			// An operator drains by mistake and undoes it at once: workers
+			// parked idle are woken by the first call and may only get back
+			// to the scheduler's lock after the second one.
+			desc = fmt.Sprintf("AddDrain+RemoveDrain %q/%d %v", q.prefix, sc, pattern)
+			_, err = w.bq.AddDrain(o.ctx, &buildqueuestate.AddOrRemoveDrainRequest{SizeClassQueueName: qn, WorkerIdPattern: pattern})
+			if err == nil {
+				_, err = w.bq.RemoveDrain(o.ctx, &buildqueuestate.AddOrRemoveDrainRequest{SizeClassQueueName: qn, WorkerIdPattern: pattern})
+			}
 		case 11:
 			desc = "ListInvocationChildren(ALL)"
 			_, err = w.bq.ListInvocationChildren(o.ctx, &buildqueuestate.ListInvocationChildrenRequest{InvocationName: &buildqueuestate.InvocationName{SizeClassQueueName: qn}, Filter: buildqueuestate.ListInvocationChildrenRequest_ALL})
